@@ -150,15 +150,11 @@ class CallMixin:
         if c is not None and c.use_at_calls and not (
                 verifying_self and not c.recursive_ok):
             return self.call_contract(info, c, env, st, node)
-        if c is not None and c.inline or info.key in self.transparent \
-                or self.inline_all:
-            return self.call_inline(info, env, st, node)
         if c is None:
             # a helper without a contract (e.g. introduced by a refactoring):
             # treated as transparent; its loops still need invariants
             self.stats["inlined_uncontracted"].add(info.key)
-            return self.call_inline(info, env, st, node)
-        raise OutOfReach("call to %s: contract not usable here" % info.key)
+        return self.call_inline(info, env, st, node)
 
     def call_inline(self, info, env, st, node=None):
         if self.depth > 12:
@@ -277,10 +273,17 @@ class CallMixin:
             else:
                 res = None
             cenv["result"] = res
+            n_before = len(st.pc)
             for r in c.ensures:
                 (s_, v) = self.ev1(self.parse(r), cenv, st)
                 (s_, b), = self.truth(v, st)
+                if b is False:
+                    raise ContractBindingError(
+                        "contract of %s is contradictory at %s: clause %r is "
+                        "concretely false" % (info.key, site, r))
                 st.assume(b)
+            # (a contradictory ensures is caught by the exit-feasibility guard
+            #  of Engine.verify: some exit path must be satisfiable)
         finally:
             self.old_stack.pop()
         return [(st, res)]
@@ -367,6 +370,37 @@ class CallMixin:
         return simp(z_and(self.num_cmp(ast.Eq(), a.n, b.n),
                           z_implies(z_and(j >= 0, self.num_cmp(ast.Lt(), j, a.n)), eq)))
 
+    def b_spec_hash_elems(self, args, kws, st, node):
+        if not isinstance(args[0], HashV):
+            raise OutOfReach("hash_elems of a non-hash")
+        return tuple(args[0].elems)
+
+    def b_spec_use_lemma(self, args, kws, st, node):
+        """Assume an INSTANCE of a registered (separately proved) lemma."""
+        import contracts as _c
+        lem = _c.LEMMAS[args[0]]
+        if set(kws) != set(lem.vars):
+            raise ContractBindingError("use_lemma(%s): bindings %s != variables %s" % (
+                args[0], sorted(kws), sorted(lem.vars)))
+        env = dict(kws)
+        env["__module__"] = "data"
+        saved = self.opaque
+        acc = True
+        for a in lem.assumes:
+            (s_, v) = self.ev1(self.parse(a), env, st)
+            (s_, b), = self.truth(v, st)
+            acc = z_and(acc, b)
+        (s_, v) = self.ev1(self.parse(lem.goal), env, st)
+        (s_, g), = self.truth(v, st)
+        st.assume(z_implies(acc, g))
+        self.stats["lemmas_used"].add(args[0])
+        return True
+
+    def b_spec_assume(self, args, kws, st, node):
+        (s_, b), = self.truth(args[0], st)
+        st.assume(b)
+        return None
+
     def b_spec_seq_len(self, args, kws, st, node):
         v = args[0]
         if isinstance(v, SeqC):
@@ -386,9 +420,14 @@ class CallMixin:
         acc = True
         for k, v in now.slots.items():
             w = was.slots.get(k)
-            (s, r), = self.compare(ast.Eq(), v, w, st)
-            if isinstance(v, Ref) and isinstance(w, Ref):
-                r = v.id == w.id
+            if v is w:
+                continue
+            if isinstance(v, Ref) or isinstance(w, Ref):
+                r = isinstance(v, Ref) and isinstance(w, Ref) and v.id == w.id
+            elif v is None or w is None or isinstance(v, str) or isinstance(w, str):
+                r = (v == w) if type(v) is type(w) else False
+            else:
+                (s, r), = self.compare(ast.Eq(), v, w, st)
             acc = z_and(acc, r)
         return simp(acc)
 
@@ -443,6 +482,12 @@ class CallMixin:
             m = st.obj(v).cls.find_method("__abs__")
             return self.call_func(FuncRef(m), [v], {}, st, node)
         return z_abs(v)
+
+    def b_time_localtime(self, args, kws, st, node):
+        v = self.sym_modattrs.get(("time", "localtime().tm_isdst"))
+        if v is None:
+            raise OutOfReach("time.localtime() without a symbolic environment")
+        return SymNS({"tm_isdst": v})
 
     def b_math_fmod(self, args, kws, st, node):
         a, b = args
